@@ -28,21 +28,25 @@ const (
 
 // resInst describes one resource instance a program can operate on.
 type resInst struct {
-	name  string // name used in ops
-	param string // archetype ref parameter it is reached through (several instances may share one)
-	kind  string // evidence kind ("" = harness-only)
-	class int
-	keys  [][]int // index paths of every cell (nil path = the resource itself)
-	queue string  // model queue/log name for clsIn/clsOut/clsLog
-	persist string // model key of the durable copy (Persistent wrappers)
+	name         string // name used in ops
+	param        string // archetype ref parameter it is reached through (several instances may share one)
+	kind         string // evidence kind ("" = harness-only)
+	class        int
+	keys         [][]int               // index paths of every cell (nil path = the resource itself)
+	queue        string                // model queue/log name for clsIn/clsOut/clsLog
+	persist      string                // model key of the durable copy (Persistent wrappers)
+	storedString func(m *model) string // rendering of the value the durable copy must hold
 
 	idxVals func(idx []int) []tla.Value
 	enc     func(v int32) tla.Value
 	dec     func(v tla.Value) (int32, bool)
 
-	infallible bool // operations and (pre)commit cannot be refused: allowed after a relaxed send
-	loud       bool // a successful write cannot be rolled back: an abort afterwards must panic (documented)
-	noStarve   bool // an empty queue does not abort the reader (CustomInChan)
+	infallible  bool // operations and (pre)commit cannot be refused: allowed after a relaxed send
+	loud        bool // a successful write cannot be rolled back: an abort afterwards must panic (documented)
+	loudOnTouch bool // SingleOutputChan: Abort panics whenever the handle is dirty, also after a write that timed out
+	noStarve    bool // an empty queue does not abort the reader (CustomInChan)
+	slowable    bool // the resource has its own operation timeout and can be made slower than it
+	makeSlow    func(on bool)
 
 	// observe compares externally visible state (far end, durable store) with the committed model.
 	observe func(cr *caseRun)
@@ -61,19 +65,23 @@ func (ri *resInst) key(idx []int) string {
 }
 
 type world struct {
-	id      string
-	dir     string
-	rec     *recorder
-	mod     *model
-	insts   map[string]*resInst
-	params  map[string]distsys.ArchetypeResource // param name -> wrapped resource
-	wraps   map[string]*wrap                     // wrapper name -> wrapper (top-level and map children)
-	flt     *faultRes
-	fchild  *faultRes
-	fmapInc bool
-	closers []func()
-	dead    bool
-	shared  *childShared
+	id           string
+	dir          string
+	rec          *recorder
+	mod          *model
+	insts        map[string]*resInst
+	params       map[string]distsys.ArchetypeResource // param name -> wrapped resource
+	wraps        map[string]*wrap                     // wrapper name -> wrapper (top-level and map children)
+	flt          *faultRes
+	fchild       *faultRes
+	fmapInc      bool
+	fmapSub      *wrap
+	fmapTpc      *wrap
+	casesRun     int
+	mapFaultSeen bool // a PreCommit failure under the harness map happened in this world (abandoned sibling pre-commits possible)
+	closers      []func()
+	dead         bool
+	shared       *childShared
 }
 
 func numEnc(v int32) tla.Value { return tla.MakeNumber(v) }
@@ -137,7 +145,7 @@ func (w *world) addInst(ri *resInst, top distsys.ArchetypeResource) {
 
 // all instance names in the order kinds were added to the check
 var allInsts = []string{"loc", "idx", "imap", "hmap", "sh", "fs", "in", "out", "cin",
-	"tcpin", "tcpout", "rlxin", "rlxout", "sout", "pers", "persh", "plog", "crdt", "tpc", "nest"}
+	"tcpin", "tcpout", "tcpsub", "tpcsub", "rlxin", "rlxout", "sout", "pers", "persh", "plog", "crdt", "tpc", "nest"}
 
 // instGroups: instances that come together (share one bound resource)
 var instGroup = map[string]string{"tcpin": "tcp", "tcpout": "tcp", "rlxin": "rlx", "rlxout": "rlx"}
@@ -174,8 +182,30 @@ func newWorld(id string, names []string, sh *childShared) (w *world, err error) 
 			c := w.wrapRes(name, "", distsys.NewLocalArchetypeResource(tla.MakeNumber(0)))
 			c.pcDelay = 2 * time.Millisecond
 			return c
-		default:
-			return w.wrapRes(name, "", distsys.NewLocalArchetypeResource(tla.MakeNumber(0)))
+		case 3:
+			if w.fmapSub != nil {
+				return w.fmapSub
+			}
+		case 4:
+			if w.fmapTpc != nil {
+				return w.fmapTpc
+			}
+		}
+		return w.wrapRes(name, "", distsys.NewLocalArchetypeResource(tla.MakeNumber(0)))
+	}
+	// a real TCP mailbox collection may live under the same map as the failing child (instance "tcpsub")
+	for _, n := range names {
+		if n == "tcpsub" {
+			if err := buildTCPSub(w); err != nil {
+				w.close()
+				return nil, err
+			}
+		}
+		if n == "tpcsub" {
+			if err := buildTwoPCSub(w); err != nil {
+				w.close()
+				return nil, err
+			}
 		}
 	}
 	w.fmapInc = sh.worldSeq%2 == 0
@@ -184,7 +214,7 @@ func newWorld(id string, names []string, sh *childShared) (w *world, err error) 
 		fmapInner = resources.NewIncMap(func(index tla.Value) distsys.ArchetypeResource { return mkChild(int(index.AsNumber())) })
 	} else {
 		hm := hashmap.New[distsys.ArchetypeResource]()
-		for k := 0; k < 3; k++ {
+		for k := 0; k < 5; k++ {
 			hm.Set(tla.MakeNumber(int32(k)), mkChild(k))
 		}
 		fmapInner = resources.NewHashMap(hm)
@@ -199,7 +229,7 @@ func newWorld(id string, names []string, sh *childShared) (w *world, err error) 
 		if gg, ok := instGroup[n]; ok {
 			g = gg
 		}
-		if done[g] {
+		if done[g] || g == "tcpsub" || g == "tpcsub" {
 			continue
 		}
 		done[g] = true
@@ -297,9 +327,9 @@ func init() {
 		ri := proto("sh")
 		ri.observe = func(cr *caseRun) {
 			// second sharer's view of the committed value (takes and releases the variable's lock)
-			v, err := decodeState(obs.GetState())
+			v, err := lockedState(obs)
 			if err != nil {
-				cr.harness("sh GetState: %v", err)
+				cr.violate(ri.kind, "shared-variable-left-locked", "sh: %v", err)
 				return
 			}
 			cr.compareCell(ri, nil, v, "second-sharer view (GetState)")
